@@ -44,6 +44,14 @@ def step (quirk : Bool) (toks : List String) (impl : String) : Drv.Res :=
         else (if implRes.all (· == expect) then [] else ["highest_common"])
       { model := m, monitor := mon,
         tags := ["gos", if peerS == "none" then "peer-none" else if expect == "err" then "no-common" else "common", s!"calls{calls}"] }
+  | some "frame" =>
+    -- both sides frame by the negotiated version: the round trip must succeed for every version; which framing a version
+    -- above 1 uses is left open (compared for 0 and 1 only)
+    let v := kvNat toks "v"
+    let it := words impl
+    let m := s!"rt=same prefixed={if v == 1 then 1 else 0}"
+    { model := m, monitor := if kv it "rt" == "same" then [] else ["framing_agrees_for_negotiated_version"],
+      tags := ["frame", s!"v{v}"], skipCompare := v ≥ 2 }
   | _ => { model := "bad-op", tags := ["bad-op"], nontrivial := false }
 
 end Drv.C19
